@@ -4,6 +4,8 @@
 #ifndef XSV_KNOWN_HPP
 #define XSV_KNOWN_HPP
 #include "elem.hpp"
+#include <algorithm>
+#include <cmath>
 #include "int_model.hpp"
 namespace xsv
 {
@@ -44,6 +46,45 @@ namespace xsv
             }
             if (ok)
                 return "rot_signed_legacy";
+        }
+        // D33: the generic ldexp multiplies by a power of two assembled in the exponent field, (e + bias) << mantissa bits,
+        // which is 2^e only for emin <= e <= emax; the avx512 double kernel narrows the 64-bit exponent to 32 bits first.
+        // Inside the class the lane must equal exactly that legacy value.
+        if (o.known.count("ldexp_exponent_range") && d.name == "ldexp" && (t == F32 || t == F64))
+        {
+            bool ok = false;
+            if (t == F32)
+            {
+                float x, g;
+                int32_t e;
+                memcpy(&x, in[0], 4);
+                memcpy(&e, in[1], 4);
+                memcpy(&g, got, 4);
+                if (e < model::fpt<float>::emin || e > model::fpt<float>::emax)
+                {
+                    const uint32_t sb = (uint32_t)((uint32_t)e + 127u) << 23;
+                    const float legacy = x * model::from_bits<float>(sb);
+                    ok = model::same(g, legacy);
+                }
+            }
+            else
+            {
+                double x, g;
+                int64_t e;
+                memcpy(&x, in[0], 8);
+                memcpy(&e, in[1], 8);
+                memcpy(&g, got, 8);
+                if (e < model::fpt<double>::emin || e > model::fpt<double>::emax)
+                {
+                    const uint64_t sb = (uint64_t)((uint64_t)e + 1023u) << 52;
+                    const double legacy = x * model::from_bits<double>(sb);
+                    ok = model::same(g, legacy);
+                    if (!ok && e != (int64_t)(int32_t)e)
+                        ok = model::same(g, std::ldexp(x, (int)std::max<int64_t>(-100000, std::min<int64_t>(100000, (int64_t)(int32_t)e)))); // narrowed exponent
+                }
+            }
+            if (ok)
+                return "ldexp_exponent_range";
         }
         return nullptr;
     }
